@@ -656,7 +656,19 @@ func writerScenario(s *Sim, params map[string]string) {
 		inner = &kafka.RoundRobin{}
 	}
 	w.Balancer = &recBalancer{inner: inner, st: st}
+	// an application whose Completion callback takes its time (logging,
+	// alerting on failures): the partition's sender waits for it
+	compDelay := time.Duration(0)
+	if t.Intn("slowcomp", 4) == 0 && !st.raceClose {
+		compDelay = time.Duration(t.Range("slowcomp", 20, 600)) * time.Millisecond
+	}
+	compCalls := 0
 	w.Completion = func(msgs []kafka.Message, err error) {
+		compCalls++
+		if compDelay > 0 && (err != nil || compCalls%3 == 0) {
+			s.Count("slow-completion")
+			s.Sleep(compDelay)
+		}
 		for _, km := range msgs {
 			if m := st.byID[msgID(km.Value)]; m != nil {
 				m.comps++
@@ -684,6 +696,19 @@ func writerScenario(s *Sim, params map[string]string) {
 				cl.MoveLeader(p, to)
 			}
 		})
+	}
+
+	// a topic drops out of the metadata for a while (brokers restarting with
+	// stale metadata) and comes back: what was queued for it meanwhile fails
+	// or is sent, in submission order either way
+	if t.Intn("blip", 4) == 0 {
+		for i := 0; i < t.Range("blip", 1, 3); i++ {
+			at := time.Duration(t.Range("blip", 50, 3000)) * time.Millisecond
+			dur := time.Duration(t.Range("blip", 30, 1500)) * time.Millisecond
+			tn := topics[t.Intn("blip", len(topics))]
+			s.After(at, "topic-hidden", func() { cl.Topics[tn].Hidden = true; s.Count("fault:topic-missing-from-metadata") })
+			s.After(at+dur, "topic-back", func() { cl.Topics[tn].Hidden = false })
+		}
 	}
 
 	nact := t.Range("cfg", 1, 4)
